@@ -19,6 +19,7 @@ EXPLANATION = (
     "scan; (VEC) MaybeDone::poll / take_ok / take_err summaries, the Ok value is take_ok() of the element just polled, the error "
     "return is control-dependent on the all_done flag which every Pending element clears, and the error vector is the in-order "
     "map(take_err) over the elements; (ZERO) zero-length world returns Ready(Err) for array and Vec without polling.")
+EXPLANATION += (' (CTOR) the entry point stores operand K, converted by into_future only, as the child of position K (the aggregate error is positional with respect to the operands).')
 ASSUMPTIONS = [
     "Iterator::{zip,map,collect} preserve order (library model)",
     "C03.GUARD: a child whose slot is Ready is never polled again",
